@@ -46,7 +46,7 @@ def new_event(t, k, src, m=(), how='-'):
     return {'t': t, 'k': k, 'src': src, 'm': list(m), 'how': how, 'outcome': 'ok', 'exc': '', 'hasPre': False, 'pre': [],
             'hasObs': False, 'obs': [], 'all': [], 'ret': [], 'eff': [], 'hasRef': False, 'res': '', 'ref': '',
             'solo': {'has': False, 'det': False, 'outcome': '', 'exc': '', 'obs': [], 'ret': [], 'eff': [], 'res': ''},
-            'regOk': False, 'reg': []}
+            'regOk': False, 'reg': [], 'expect': {'has': False, 'store': []}}
 
 
 def fill(ev, r):
@@ -262,6 +262,10 @@ def replay_option_behaviour(beh: list, rng: random.Random, trace_id: int, reglog
                 ev['all'] = ctl.others(t)
                 steps += expand_exit(ev, levels)
                 i += levels - 1
+            last = beh[i]       # (for merged exits: the last merged model step)
+            post = [p for p in last.get('post', []) if p['t'] == a['t']]
+            if post and steps and steps[-1]['t'] == t and k != 'die':
+                steps[-1]['expect'] = {'has': True, 'store': C.pairs(cz.store(post[0]['store']))}
             i += 1
         # leave every block that is still open, then end the threads
         for t in sorted(ctl.w):
